@@ -101,6 +101,10 @@ pub fn dump_tables(_out: &mut Vec<(String, String)>) {}
 // ------------------------------------------------------------------------------------------------
 // one run of the real interpreter
 
+/// Wall-clock limit of one run in the worker (generated programs take milliseconds).
+const WORKER_ALARM_SECS: u32 = 5;
+/// After this many oracle failures one `run` stops executing further `d` requests.
+const MAX_FAILS_PER_RUN: usize = 150;
 const ARENA_CAP: usize = 64 << 20;
 const FRAME_CAP: usize = 16 << 20;
 
@@ -196,6 +200,9 @@ fn worker() -> i32 {
     let stdin = std::io::stdin();
     for line in stdin.lock().lines() {
         let Ok(line) = line else { break };
+        // watchdog: a run that reads recycled memory may loop forever; SIGALRM ends the worker, the
+        // parent sees EOF and reports `abort` for the request in flight
+        unsafe { libc::alarm(WORKER_ALARM_SECS) };
         let w: Vec<&str> = line.split_whitespace().collect();
         let ans = match w.as_slice() {
             [mode @ ("F" | "N"), src] => match util::unhex(src).and_then(|b| String::from_utf8(b).ok()) {
@@ -217,6 +224,7 @@ fn worker() -> i32 {
         if writeln!(out, "{ans}").is_err() || out.flush().is_err() {
             break;
         }
+        unsafe { libc::alarm(0) };
     }
     0
 }
@@ -331,13 +339,21 @@ fn verdict(f: &str, n: &str) -> Option<String> {
 fn run(_args: &[String]) -> i32 {
     let mut out = Out::new();
     let mut pool = Pool2 { w: None };
+    let mut fails = 0usize;
     for (i, line) in util::stdin_lines().iter().enumerate() {
         let w: Vec<&str> = line.split_whitespace().collect();
         match w.as_slice() {
+            ["d", _] if fails >= MAX_FAILS_PER_RUN => {
+                // enough failures for the search to work with: do not spend the watchdog time of
+                // every remaining program of a badly broken tree
+                eprintln!("STAT {} end=skipped resets=0 frees=0 pallocs=0 reuse=0 rcopy=0", i + 1);
+                out.line("d");
+            }
             ["d", src] => {
                 let (f, n, tr) = differential(&mut pool, src);
                 if let Some(why) = verdict(&f, &n) {
                     eprintln!("ORACLE-FAIL {} [C02] {why}", i + 1);
+                    fails += 1;
                 }
                 let end = f.split(' ').next().unwrap_or("?").split(':').next().unwrap_or("?");
                 eprintln!("STAT {} end={end} {}", i + 1, stats(&tr));
